@@ -101,8 +101,12 @@ Definition K1 (v v' : cview) : Prop :=
 Definition K2 (v v' : cview) : Prop :=
   forall o k a s, slotv (cv_h v') o k = Some (MAction a s) ->
                   slotv (cv_h v) o k = Some (MAction a s) \/ cv_n v <= a.
+(** an aid allocated meanwhile is stored or has been executed (no action is ever lost) *)
+Definition stored_in (h : list vobj) (a : nat) : Prop := exists o k s, slotv h o k = Some (MAction a s).
+Definition K3 (v v' : cview) : Prop :=
+  forall a, cv_n v <= a -> a < cv_n v' -> stored_in (cv_h v') a \/ a ∈ cv_x v'.
 Definition RelW (v v' : cview) : Prop := CIv v' /\ mono v v' /\ K2 v v'.
-Definition Rel (v v' : cview) : Prop := RelW v v' /\ K1 v v'.
+Definition Rel (v v' : cview) : Prop := RelW v v' /\ K1 v v' /\ K3 v v'.
 
 Lemma monoh_refl h : monoh h h.
 Proof.
@@ -130,7 +134,8 @@ Qed.
 
 Lemma Rel_refl v : CIv v -> Rel v v.
 Proof.
-  intros H. split; [split; [exact H|split; [apply mono_refl|]]|]; intros o k a s Hs; left; exact Hs.
+  intros H. split; [split; [exact H|split; [apply mono_refl|]]|split];
+    try (intros o k a s Hs; left; exact Hs). intros a H1 H2. lia.
 Qed.
 Lemma RelW_trans v1 v2 v3 : RelW v1 v2 -> RelW v2 v3 -> RelW v1 v3.
 Proof.
@@ -141,15 +146,26 @@ Proof.
 Qed.
 Lemma Rel_trans v1 v2 v3 : Rel v1 v2 -> Rel v2 v3 -> Rel v1 v3.
 Proof.
-  intros [A AK] [B BK]. split; [eapply RelW_trans; eauto|].
-  intros o k a s Hs. destruct (AK o k a s Hs) as [Hs2|Hx].
-  - apply BK, Hs2.
-  - right. destruct B as (_ & (_ & B2 & _) & _). auto.
+  intros (A & AK & A3) (B & BK & B3). split; [eapply RelW_trans; eauto|]. split.
+  - intros o k a s Hs. destruct (AK o k a s Hs) as [Hs2|Hx].
+    + apply BK, Hs2.
+    + right. destruct B as (_ & (_ & B2 & _) & _). auto.
+  - intros a H1 H3. destruct (decide (a < cv_n v2)) as [Hlt|Hge].
+    + destruct (A3 a H1 Hlt) as [(o & k & s & Hs)|Hx].
+      * destruct (BK o k a s Hs) as [Hs3|Hx3]; [left; exists o, k, s; exact Hs3|right; exact Hx3].
+      * right. destruct B as (_ & (_ & B2 & _) & _). auto.
+    + apply B3; [lia|exact H3].
 Qed.
+Lemma Rel_K1 v v' : Rel v v' -> K1 v v'.
+Proof. intros (_ & H & _); exact H. Qed.
+Lemma Rel_K3 v v' : Rel v v' -> K3 v v'.
+Proof. intros (_ & _ & H); exact H. Qed.
 Lemma Rel_RelW v v' : Rel v v' -> RelW v v'.
 Proof. intros [H _]; exact H. Qed.
 Lemma Rel_CIv v v' : Rel v v' -> CIv v'.
 Proof. intros [[H _] _]; exact H. Qed.
+Lemma K3_same_n v v' : cv_n v' = cv_n v -> K3 v v'.
+Proof. intros E a H1 H2. lia. Qed.
 Lemma RelW_CIv v v' : RelW v v' -> CIv v'.
 Proof. intros [H _]; exact H. Qed.
 
@@ -289,7 +305,7 @@ Proof.
     + intros y mo. rewrite Hcl. auto.
     + intros o Ho Hu. split; [intros y; rewrite Hcl; apply Hu|]. intros k a s. rewrite Hs. auto.
   - intros o k a s. cbn [cv_h]. rewrite Hs. auto.
-  - intros o k a s. cbn [cv_h]. rewrite Hs. auto.
+  - split; [|apply K3_same_n; reflexivity]. intros o k a s. cbn [cv_h]. rewrite Hs. auto.
 Qed.
 
 Lemma cleaner_at_snoc h v0 y :
@@ -352,7 +368,7 @@ Proof.
     + intros o' _ Hu. split; [intros y H; exact (Hu y (Hc _ _ H))|].
       intros k a s. rewrite slotv_set_cl. auto.
   - intros o' k a s. cbn [cv_h]. rewrite slotv_set_cl. auto.
-  - intros o' k a s. cbn [cv_h]. rewrite slotv_set_cl. auto.
+  - split; [|apply K3_same_n; reflexivity]. intros o' k a s. cbn [cv_h]. rewrite slotv_set_cl. auto.
 Qed.
 
 (** linking a map allocated since [v0] that no Cleaner names yet *)
@@ -361,7 +377,7 @@ Lemma Rel_link v0 h n x y mo :
   (exists w, h !! mo = Some w /\ v_ismap w = true) -> unlinked h mo ->
   Rel v0 (CV (alter (set_cl (Some mo)) y h) n x).
 Proof.
-  intros [(HI & (N1 & X1 & (M1 & M2 & M3 & M4)) & HK2) HK1] Hge Hmap Hun.
+  intros ((HI & (N1 & X1 & (M1 & M2 & M3 & M4)) & HK2) & HK1 & HK3) Hge Hmap Hun.
   cbn [cv_h cv_n cv_x] in *.
   assert (Hc : forall y' mo', cleaner_at (alter (set_cl (Some mo)) y h) y' = Some mo' ->
                  (y' = y /\ mo' = mo) \/ (y' <> y /\ cleaner_at h y' = Some mo')).
@@ -392,7 +408,10 @@ Proof.
       * intros y' H. destruct (Hc _ _ H) as [[-> E]|[_ H']]; [lia|exact (Hu' _ H')].
       * intros k a s. rewrite slotv_set_cl. apply Hs'.
   - intros o k a s. cbn [cv_h]. rewrite slotv_set_cl. apply HK2.
-  - intros o k a s H. cbn [cv_h]. rewrite slotv_set_cl. apply HK1, H.
+  - split.
+    + intros o k a s H. cbn [cv_h]. rewrite slotv_set_cl. apply HK1, H.
+    + intros a H1 H2. cbn [cv_h cv_n cv_x] in *. destruct (HK3 a H1 H2) as [(o & k & s & Hs)|Hx]; [|right; exact Hx].
+      left. exists o, k, s. rewrite slotv_set_cl. exact Hs.
 Qed.
 
 (** *** vacating a slot (with or without pushing it on the free list): everything but [K1] for
@@ -463,20 +482,22 @@ Qed.
 
 (** vacating, then executing the action that was there *)
 Lemma Rel_vacate_run v v1 v2 o k a s :
-  RelW v v1 -> K1x o k v v1 -> slotv (cv_h v) o k = Some (MAction a s) ->
+  RelW v v1 -> K1x o k v v1 -> cv_n v1 = cv_n v -> slotv (cv_h v) o k = Some (MAction a s) ->
   Rel v1 v2 -> a ∈ cv_x v2 -> Rel v v2.
 Proof.
-  intros HW HK Hs [HW2 HK2] Hx. split; [eapply RelW_trans; eauto|].
-  intros o' k' a' s' H'. destruct (HK o' k' a' s' H') as [H1|[-> ->]].
-  - apply HK2, H1.
-  - rewrite Hs in H'. injection H' as <- <-. right; exact Hx.
+  intros HW HK En Hs (HW2 & HK2 & HK3) Hx. split; [eapply RelW_trans; eauto|]. split.
+  - intros o' k' a' s' H'. destruct (HK o' k' a' s' H') as [H1|[-> ->]].
+    + apply HK2, H1.
+    + rewrite Hs in H'. injection H' as <- <-. right; exact Hx.
+  - intros a' H1 H2. apply HK3; [lia|exact H2].
 Qed.
 
 (** the vacated slot was not an action: nothing is lost *)
 Lemma Rel_vacate_none v v1 o k :
-  RelW v v1 -> K1x o k v v1 -> (forall a s, slotv (cv_h v) o k <> Some (MAction a s)) -> Rel v v1.
+  RelW v v1 -> K1x o k v v1 -> cv_n v1 = cv_n v ->
+  (forall a s, slotv (cv_h v) o k <> Some (MAction a s)) -> Rel v v1.
 Proof.
-  intros HW HK Hn. split; [exact HW|]. intros o' k' a s H.
+  intros HW HK En Hn. split; [exact HW|]. split; [|apply K3_same_n, En]. intros o' k' a s H.
   destruct (HK o' k' a s H) as [H1|[-> ->]]; [left; exact H1|]. exfalso. exact (Hn a s H).
 Qed.
 
@@ -497,7 +518,7 @@ Proof.
   - split; [cbn; lia|]. split; [cbn; intros a' H; apply elem_of_cons; auto|].
     apply monoh_refl.
   - intros o k a' s H. left; exact H.
-  - intros o k a' s H. left; exact H.
+  - split; [|apply K3_same_n; reflexivity]. intros o k a' s H. left; exact H.
 Qed.
 
 (** *** registering: the aid [n] goes into a vacant slot of a map, [next_aid] is bumped *)
@@ -534,7 +555,7 @@ Proof.
       rewrite Hother by exact Hk. exact H.
     - rewrite slotv_alter_ne by exact Hne. auto. }
   destruct (ci_obj _ HI o w Hw) as [(L1 & L2 & L3) Hc].
-  destruct HR as [(_ & (N1 & X1 & (M1 & M2 & M3 & M4)) & HK2) HK1]. cbn [cv_h cv_n cv_x] in *.
+  destruct HR as ((_ & (N1 & X1 & (M1 & M2 & M3 & M4)) & HK2) & HK1 & HK3). cbn [cv_h cv_n cv_x] in *.
   split; [split; [|split]|].
   - destruct HI as [A B C D E F G]. cbn [cv_h cv_n cv_x] in *.
     constructor; cbn [cv_h cv_n cv_x].
@@ -570,7 +591,13 @@ Proof.
   - intros o' k' a s' H. cbn [cv_h cv_n] in *. destruct (Hs _ _ _ _ H) as [H0|(_ & _ & ->)].
     + apply HK2, H0.
     + right. exact N1.
-  - intros o' k' a s' H. cbn [cv_h] in *. destruct (HK1 _ _ _ _ H) as [H1|Hx]; [left; apply Hs', H1|right; exact Hx].
+  - split.
+    + intros o' k' a s' H. cbn [cv_h] in *. destruct (HK1 _ _ _ _ H) as [H1|Hx]; [left; apply Hs', H1|right; exact Hx].
+    + intros a H1 H2. cbn [cv_h cv_n cv_x] in *. destruct (decide (a < n)) as [Hlt|Hge].
+      * destruct (HK3 a H1 Hlt) as [(o' & k' & s' & Hs0)|Hx]; [|right; exact Hx].
+        left. exists o', k', s'. apply Hs', Hs0.
+      * assert (a = n) by lia. subst a. left. exists o, i, s.
+        rewrite (slotv_alter_eq _ _ _ _ _ Hw). exact Hnew.
 Qed.
 
 Lemma ins_free_slot i a s fr w : i < length (v_slots w) -> v_slots (ins_free i a s fr w) !! i = Some (MAction a s).
